@@ -7,6 +7,7 @@ pub mod c07;
 pub mod c04;
 pub mod c05;
 mod c09;
+mod c17;
 pub mod c10;
 
 pub fn generate(suite: &str, tier: &str, seed: u64) -> Vec<String> {
@@ -19,6 +20,8 @@ pub fn generate(suite: &str, tier: &str, seed: u64) -> Vec<String> {
         "c04" => c04::generate(&mut rng, thorough),
         "c05" => c05::generate(&mut rng, thorough),
         "c06" => c09::generate_c06(&mut rng, thorough),
+        "c17" => c17::generate_c17(&mut rng, thorough),
+        "c18" => c17::generate_c18(&mut rng, thorough),
         "c10" => c10::generate(&mut rng, thorough),
         _ => panic!("unknown suite {suite}"),
     }
@@ -32,6 +35,9 @@ pub fn eval_more(t: &[&str]) -> String {
         return s;
     }
     if let Some(s) = c04::eval(t) {
+        return s;
+    }
+    if let Some(s) = c17::eval(t) {
         return s;
     }
     if let Some(s) = c09::eval(t) {
